@@ -131,6 +131,7 @@ CURATED = [
     ('call-scope', 'fn f(a) {\n    l := a\n    a = a + 1\n    return a + l\n}\na := @h1@\nprint(f(a))\nprint(a)\nif @b1@ {\n    print(l)\n}\n'),
     ('redeclare', 'x := @h1@\nif @b1@ {\n    x := @h2@\n    print(x)\n}\nif @b2@ {\n    fn x() {\n        return 1\n    }\n    print(2)\n}\nprint(x)\nx := @h3@\nprint(x)\n'),
     ('redeclare-kinds', 's := @h0@\nfn f() {\n    return 1\n}\n[a, b] := [1, 2]\nif s == 0 {\n    print(1)\n}\n' + ''.join('%s\n' % l for l in []) ),
+    ('paren-names', 'if @b1@ {\n    print(  (w))\n}\nif @b2@ {\n    (  w) = 1\n}\nif @b3@ {\n    ( w) += 1\n}\nif @b4@ {\n    z := {(  w)}\n}\n( w) := @h1@\nprint(w)\nif @b5@ {\n    (   w) := 2\n}\nprint((w) + 1)\n'),
     ('use-before-decl', 'if @b1@ {\n    print(w)\n}\nif @b2@ {\n    w = 1\n}\nif @b3@ {\n    w += 1\n}\nw := @h1@\nprint(w)\n'),
     ('underscore', '_ := @h1@\n_ := @h2@\n[_, _, k] := [1, 2, @h3@]\nprint(k)\nfn f(_, _) {\n    return 1\n}\nprint(f(1, 2))\nfor [_, _] in [1] {\n    print(3)\n}\nif @b1@ {\n    print(_)\n}\n_ = 5\nprint(4)\n'),
     ('fn-recursion', 'fn fact(n) {\n    if n <= 1 {\n        return 1\n    }\n    return n * fact(n - 1)\n}\nprint(fact(@h1@))\n'),
